@@ -27,6 +27,7 @@ fn words_of(bv: &BitVector) -> (usize, [u64; BV_WORDS]) {
 
 pub fn bv_rank<'a>(bv: &BitVector, index: usize) -> usize where 'a: 'a {
     let (n, w) = words_of(bv);
+    if index < n { assert!(enabled(bv, 1), "rank support was never enabled on this bitvector"); }
     let mut i = 0; let mut r = 0usize;
     while i < BV_SCAN { if i < n && i < index && (w[i >> 6] >> (i & 63)) & 1 == 1 { r += 1; } i += 1; }
     r
@@ -34,6 +35,7 @@ pub fn bv_rank<'a>(bv: &BitVector, index: usize) -> usize where 'a: 'a {
 
 pub fn bv_select<'a>(bv: &'a BitVector, rank: usize) -> Option<usize> where 'a: 'a {
     let (n, w) = words_of(bv);
+    if rank < bv.count_ones() { assert!(enabled(bv, 2), "select support was never enabled on this bitvector"); }
     let mut i = 0; let mut seen = 0usize; let mut res: Option<usize> = None;
     while i < BV_SCAN {
         if i < n && (w[i >> 6] >> (i & 63)) & 1 == 1 {
@@ -47,6 +49,7 @@ pub fn bv_select<'a>(bv: &'a BitVector, rank: usize) -> Option<usize> where 'a: 
 
 pub fn bv_select_zero<'a>(bv: &'a BitVector, rank: usize) -> Option<usize> where 'a: 'a {
     let (n, w) = words_of(bv);
+    if rank < n - bv.count_ones() { assert!(enabled(bv, 4), "select_zero support was never enabled on this bitvector"); }
     let mut i = 0; let mut seen = 0usize; let mut res: Option<usize> = None;
     while i < BV_SCAN {
         if i < n && (w[i >> 6] >> (i & 63)) & 1 == 0 {
@@ -58,4 +61,37 @@ pub fn bv_select_zero<'a>(bv: &'a BitVector, rank: usize) -> Option<usize> where
     res
 }
 
-pub fn bv_enable_noop<'a>(_bv: &mut BitVector) where 'a: 'a {}
+// Which supports were "enabled": keyed by the address of the bit buffer (stable across moves
+// of the BitVector value). A query that the real code answers through a support structure
+// asserts that the support was enabled (the real code would panic on `unwrap()` of `None`).
+const SLOTS: usize = 24;
+static mut KEYS: [usize; SLOTS] = [0; SLOTS];
+static mut MASKS: [u8; SLOTS] = [0; SLOTS];
+static mut USED: usize = 0;
+
+fn key_of(bv: &BitVector) -> usize {
+    let raw: &simple_sds::raw_vector::RawVector = bv.as_ref();
+    let data: &[u64] = raw.as_ref();
+    data.as_ptr() as usize
+}
+fn enable(bv: &BitVector, bit: u8) {
+    let k = key_of(bv);
+    unsafe {
+        let mut i = 0;
+        while i < SLOTS { if i < USED && KEYS[i] == k { MASKS[i] |= bit; return; } i += 1; }
+        assert!(USED < SLOTS, "stub: too many embedded bitvectors");
+        KEYS[USED] = k; MASKS[USED] = bit; USED += 1;
+    }
+}
+fn enabled(bv: &BitVector, bit: u8) -> bool {
+    let k = key_of(bv);
+    unsafe {
+        let mut i = 0;
+        while i < SLOTS { if i < USED && KEYS[i] == k && MASKS[i] & bit != 0 { return true; } i += 1; }
+    }
+    false
+}
+pub fn bv_enable_rank<'a>(bv: &mut BitVector) where 'a: 'a { enable(bv, 1) }
+pub fn bv_enable_select<'a>(bv: &mut BitVector) where 'a: 'a { enable(bv, 2) }
+pub fn bv_enable_select_zero<'a>(bv: &mut BitVector) where 'a: 'a { enable(bv, 4) }
+pub fn bv_enable_pred_succ<'a>(bv: &mut BitVector) where 'a: 'a { enable(bv, 3) }
